@@ -362,6 +362,11 @@ Definition ok_resolve (c : @config unit * option (string * gen * bool)) : bool :
           (option_map (fun r => (c_package r, c_gen r, c_initialism r)) (resolve_new cfg)) obs.
 Definition mismatches_resolve := mismatches ok_resolve.
 
+(** (keys of the file, -old-config-style given, a legacy flag given, observed: processed as old / as new / refused) *)
+Definition ok_style (c : cfile * bool * bool * option cstyle) : bool :=
+  let '(f, e, l, obs) := c in opt_eqb cstyle_eqb (detect strict_old e l f) obs.
+Definition mismatches_style := mismatches ok_style.
+
 (** C07: JSON member values are canonical texts; None = null. observed = the re-encoded object, sorted by key. *)
 From V Require Import Model.Codec.
 Definition jval := option string.
@@ -495,3 +500,15 @@ Definition ok_onedoc (c : bool * list string * list string * list (list string))
   let '(emb, locals, ext, obs) := c in
   list_eqb (list_eqb String.eqb) (declared_of emb {| ld_locals := locals; ld_external := ext |} ext (List.length obs)) obs.
 Definition mismatches_onedoc := mismatches ok_onedoc.
+
+(** C04: net/url's escaping of one path segment / one query component, and the two decoders (None = error) *)
+From Coq Require Import NArith.
+From V Require Import Model.Escape.
+Definition nlist_eqb := list_eqb N.eqb.
+Definition ok_escape (c : list N * list N * list N) : bool :=
+  let '(s, p, q) := c in nlist_eqb (escape PathSegment s) p && nlist_eqb (escape QueryComponent s) q.
+Definition mismatches_escape := mismatches ok_escape.
+Definition ok_unescape (c : list N * option (list N) * option (list N)) : bool :=
+  let '(s, p, q) := c in
+  opt_eqb nlist_eqb (unescape PathSegment s) p && opt_eqb nlist_eqb (unescape QueryComponent s) q.
+Definition mismatches_unescape := mismatches ok_unescape.
